@@ -1,4 +1,4 @@
-ADD_ONLY = False  # two hooks cfg-split an existing line (LruManager key_map -> BTreeMap under cfg(kani); retry::sleep cfg attribute); all others only add code
+ADD_ONLY = False  # three hooks cfg-split an existing line (LruManager key_map -> BTreeMap under cfg(kani); retry::sleep cfg attribute); all others only add code
 NOTES = ("All checks are bounded model checking of the REAL code (Kani 0.68 -> CBMC 6.11 -> CaDiCaL): every claim is "
          "'for all symbolic inputs inside the stated bounds'; bounds, stubs, scale models and assumptions are listed per "
          "harness in the evidence files (coverage.samples[*].bounds, assumptions) and in DESIGN.md. Counterexamples are "
@@ -31,8 +31,8 @@ _c("C03",
    "2-3 pages x 1-2 entries, <= 6 archive entries with scaled records-per-chunk; TVFS and ContentResolver outside; two root-header "
    "findings recorded in known_findings.json.")
 _c("C05",
-   "Bounded model checking of one bucket's update section (append / search / all_entries / byte round trip for 1-5 fully symbolic entries incl. equal keys and tombstones, on the scaled section) and of the private search_both_sections kernel (sorted + update entries from a key alphabet, symbolic statuses) against a 'latest value per key' model.",
-   "The IndexManager public-API histories, the flush merge and ResidencyDb histories are OUTSIDE (measured: a Vec inside a BTreeMap/array value is opaque to CBMC, symex > 600 s or OOM); update section scaled under cfg(kani) to 2 pages x 2 entries; one defect (remove_entry) demonstrated natively and fixed.")
+   "Bounded model checking of the local key index as a map: one bucket's update section (append/search/byte round trip), the search_both_sections kernel, and IndexManager through its public API (one-step mutators from arbitrary pre-states, mutators on a full update section, the flush merge on six shapes, enumeration, short histories from new()) against a 'latest value per 9-byte key' model; the boolean result of every mutator must equal 'the model changed'.",
+   "Container hooks under cfg(kani) (not add-only): the bucket map is a one-slot map, the scratch maps of flush/enumeration a 4-slot sorted array (std BTreeMap values holding Vecs are opaque to CBMC); update section scaled to 2 pages x 2 entries; save_index = Ok/Err model; merge / enumeration on concrete key shapes; ResidencyDb histories, several buckets and reload from files are outside.")
 _c("C06",
    "The real save routines run symbolically over an I/O trace model of std::fs; the solver decides, for every input inside the bounds, "
    "the atomic-replace protocol invariants I1-I4 (data only to the temp file, complete + fsynced before rename, nothing written after, "
